@@ -240,6 +240,49 @@ def run(R):
                                 % (vn.upper(), "&&" if want_edge else "||"), [f.loc(barms[vn][0])])
         else:
             R.violation("C03.bool", "no-match", "BooleanOperation arm does not dispatch on the operator", [f.loc(arms_["BooleanOperation"][0])])
+    # ---- CASE takes the first true branch; array subscripts are 1-based
+    R.rule("C03.case", "CASE evaluates its WHEN clauses in order and returns the THEN value of the first true one, else the ELSE value")
+    R.rule("C03.subscript", "array subscripts are 1-based: the element index is the subscript minus the constant 1 (checked), looked up with get()")
+    if "Case" in arms_:
+        creg2 = arms_["Case"][1]
+        nx = [c for c in f.calls if c.bb in creg2 and short(c.name).endswith("slice::iter::Iter<'a, T> as core::iter::traits::iterator::Iterator>::next")]
+        rev = [c for c in f.calls if c.bb in creg2 and re.search(r"Iterator::(rev|skip|step_by|filter|take)$|::(sort|reverse)", short(c.name))]
+        evs = [c for c in f.calls if c.bb in creg2 and short(c.name) == EVAL]
+        ok = len(nx) == 1 and not rev and len(evs) == 3
+        if ok:
+            lp = PR.loop_of(f, nx[0].bb)
+            bools = [c for c in f.calls if c.bb in creg2 and short(c.name) == V + "::bool"]
+            ok = lp is not None and len(bools) == 1
+            if ok:
+                cond_ev = [c for c in evs if any(o.kind == "call" and o.call is c for o in F.origins(f, bools[0].args[0], depth=12))]
+                g3 = PR.bool_guard(f, bools[0])
+                gn = PR.discr_guard(f, nx[0], "Some")
+                ok = len(cond_ev) == 1 and cond_ev[0].bb in lp[1] and g3 is not None and gn is not None
+                if ok:
+                    res_ev = [c for c in evs if c not in cond_ev and PR.dominated_by_edge(f, c.bb, g3[0], g3[1])]
+                    else_ev = [c for c in evs if c not in cond_ev and c not in res_ev]
+                    none_reg = set()
+                    for nt in gn[2]:
+                        none_reg |= f.reachable_from(nt)
+                    ok = len(res_ev) == 1 and lp[0] not in f.reachable_from(res_ev[0].bb) and \
+                        len(else_ev) == 1 and else_ev[0].bb in none_reg and not PR.dominated_by_edge(f, else_ev[0].bb, g3[0], g3[1])
+        if ok:
+            R.ok("C03.case", "evaluate|Case", "clauses in order; first true condition returns its result; ELSE after the loop", nx[0].loc())
+        else:
+            R.violation("C03.case", "evaluate|Case", "the CASE arm is not `for (cond, result) in clauses { if cond { return result } } else_clause` over the "
+                                                     "clauses in order", [f.loc(arms_["Case"][0])])
+    if "ArrayElementAccess" in arms_:
+        areg2 = arms_["ArrayElementAccess"][1]
+        subs = [c for c in f.calls if c.bb in areg2 and short(c.name).endswith("<impl i64>::checked_sub")]
+        gets = [c for c in f.calls if c.bb in areg2 and short(c.name) == "core::slice::<impl [T]>::get"] + \
+               [ch_c for ch in P.children.get(f.key, []) for ch_c in ch.calls if short(ch_c.name) == "core::slice::<impl [T]>::get" and ch.line >= f.blocks[arms_["ArrayElementAccess"][0]]["term"]["span"]["line"] - 5]
+        one = subs and subs[0].args[1]["k"] == "const" and subs[0].args[1].get("int") == 1
+        raw_index = [c for c in f.calls if c.bb in areg2 and "Index<" in short(c.name)]
+        if one and gets and not raw_index:
+            R.ok("C03.subscript", "evaluate|ArrayElementAccess", "values.get(subscript - 1)", subs[0].loc())
+        else:
+            R.violation("C03.subscript", "evaluate|ArrayElementAccess", "array subscripts are not `get(subscript.checked_sub(1))` (1-based, total)",
+                        [f.loc(arms_["ArrayElementAccess"][0])])
     # ---- projection
     sf = R.need_fn(SEL)
     keys = [c for c in sf.calls if c.func.get("trait") == "sqlgrep::execution::ColumnProvider" and c.func.get("trait_method") == "keys"]
